@@ -506,7 +506,15 @@ def a_no_exempt_keys(ctx, fn):
         skips = [i for i in ast.walk(l) if isinstance(i, ast.If) and any(isinstance(x, ast.Continue) for x in i.body) and isinstance(i.test, ast.Compare)
                  and isinstance(i.test.ops[0], ast.In)]
         ok = not skips
-        ctx.check("C04.a.no-exempt-keys", SM, fn.name, first_line(skips[0].test, 60) if skips else "for %s in %s" % (src(l.target), src(l.iter)), ok,
+        construct = "for %s in %s" % (src(l.target), src(l.iter))
+        if skips:
+            # name the finding by WHICH keys are exempt (resolved literal), not by the name of the variable that holds them
+            from ..source import local_or_module_literal
+            comp = skips[0].test.comparators[0]
+            lit = comp if isinstance(comp, (ast.List, ast.Tuple, ast.Set)) else (local_or_module_literal(fn, ctx.tree.ast(SM), comp.id) if isinstance(comp, ast.Name) else None)
+            vals = sorted(str(e.value) for e in lit.elts if isinstance(e, ast.Constant)) if lit is not None else [src(comp)]
+            construct = "keys exempt from comparison: %s" % ", ".join(vals)
+        ctx.check("C04.a.no-exempt-keys", SM, fn.name, construct, ok,
                   "every key of the expected dict is compared" if ok else
                   "keys in `%s` are skipped at every depth and for every event: a WRITTEN parameter with such a name (e.g. `match $check.Finished(return_value=\"allowed\")`) is never compared and the "
                   "statement advances on any value" % src(skips[0].test.comparators[0]), line=(skips[0].lineno if skips else l.lineno))
